@@ -156,6 +156,11 @@ Record cfg := {
   c_defaults : list (N * Z);                (* DefaultParams *)
 }.
 
+(** the hardfork version is an input of every block (BlockHeaderInfo.ForkVersion): histories may
+    cross fork heights *)
+Definition set_ver (v : Z) (c : cfg) : cfg :=
+  {| c_ver := v; c_fixed := c_fixed c; c_ids := c_ids c; c_defaults := c_defaults c |}.
+
 Definition StakingDelay : Z := 86400.
 Definition VotingDelay : Z := 86400.
 Definition MaxAER : Z := 500000000 * 10 ^ 18.
